@@ -20,7 +20,7 @@ from typing import Any
 
 from .. import leanio, pyextract, rfc
 from ..core import Ctx, ExtractError, load_corpus
-from ..sim import pool
+from . import sim_c06 as pool
 
 ID = "C06"
 LEVEL = "proof"
@@ -391,7 +391,15 @@ def gen_scenario(rng: Any, seed: int) -> dict:
         for _ in range(rng.choice([0, 0, 1, 1, 2, 3])):
             a = rng.choice(["ok", "temp", "temp", "perm", "arb"])
             script.append(["temp", rng.choice([0.5, 1.0, 2.0, 3.0])] if a == "temp" else a)
-        handlers.append({"kind": "delete", "id": f"d{k}", "opts": opts, "script": script, "default": rng.choice(["ok", "ok", "ok", "perm"])})
+        hd: dict[str, Any] = {"kind": "delete", "id": f"d{k}", "opts": opts, "script": script, "default": rng.choice(["ok", "ok", "ok", "perm"])}
+        if rng.random() < 0.15:
+            # one function stacked twice under one id with different filters (both registrations decide the finalizer)
+            common = {kk: vv for kk, vv in opts.items() if kk not in ("labels", "optional")}
+            first, second = rng.sample(["l", "m"], 2)
+            hd["stack"] = [{**common, "labels": {first: "1"}}, {**common, "labels": {second: "1"}}]
+            if rng.random() < 0.25:
+                hd["stack"][rng.randrange(2)]["optional"] = True
+        handlers.append(hd)
     if rng.random() < 0.4:
         opts = {}
         if rng.random() < 0.5:
@@ -472,9 +480,23 @@ def gen_scenario(rng: Any, seed: int) -> dict:
 
 
 # ---- reading a trace ------------------------------------------------------------------------------
+def _regs(h: dict) -> list[dict]:
+    """The registrations of a handler declaration: one, or several for a stacked function (same fn, same id)."""
+    return [dict(o) for o in h["stack"]] if "stack" in h else [h.get("opts") or {}]
+
+
+def _match_opts(opts: dict, labels: dict) -> bool:
+    return all(labels.get(k) == v for k, v in (opts.get("labels") or {}).items())
+
+
 def _match(h: dict, labels: dict) -> bool:
-    want = (h.get("opts") or {}).get("labels") or {}
-    return all(labels.get(k) == v for k, v in want.items())
+    """Some registration of the handler matches an object with these labels."""
+    return any(_match_opts(o, labels) for o in _regs(h))
+
+
+def _mandatory(h: dict, labels: dict) -> bool:
+    """A deletion handler with a MANDATORY registration that matches an object with these labels."""
+    return h["kind"] == "delete" and any(not o.get("optional") and _match_opts(o, labels) for o in _regs(h))
 
 
 def _meta(body: dict) -> dict:
@@ -569,7 +591,7 @@ class View:
         for h in self.handlers:
             if not _match(h, labels):
                 continue
-            if h["kind"] == "delete" and not (h.get("opts") or {}).get("optional"):
+            if _mandatory(h, labels):
                 if not self.finished(h, uid, T, upto):
                     why.append(f"mandatory deletion handler {h['id']} has not finished")
             elif h["kind"] in SPAWNING_KINDS:
@@ -671,7 +693,7 @@ def abstract_cycle(view: View, cyc: dict) -> dict | None:
         "spawning": bool(spawn_hs),
         "spawnReq": any(_match(h, labels) and h["id"] not in forever for h in spawn_hs),
         "changing": any(_match(h, labels) for h in chg_hs),
-        "changeReq": any(h["kind"] == "delete" and not (h.get("opts") or {}).get("optional") and _match(h, labels) for h in chg_hs),
+        "changeReq": any(_mandatory(h, labels) for h in chg_hs),
         "isBlocked": OWN in fins,
         "isOngoing": bool(_meta(body).get("deletionTimestamp")),
         "deletedEvent": False,
@@ -778,7 +800,7 @@ def _requiring(view: View, cyc: dict, labels: dict) -> tuple[list[str], list[str
     for h in view.handlers:
         if not _match(h, labels):
             continue
-        if h["kind"] == "delete" and not (h.get("opts") or {}).get("optional") or h["kind"] == "timer":
+        if _mandatory(h, labels) or h["kind"] == "timer":
             sure.append(h["id"])
             possible.append(h["id"])
         elif h["kind"] == "daemon":
@@ -977,7 +999,8 @@ def run(ctx: Ctx) -> None:
     names: list[str | None] = [nm for nm, _ in corpus] + [None] * n
     for sc in scenarios:
         for h in sc.get("handlers", []):
-            ctx.count("S.handler_kinds", h["kind"] + ("(optional)" if (h.get("opts") or {}).get("optional") else ""))
+            ctx.count("S.handler_kinds", h["kind"] + ("(optional)" if (h.get("opts") or {}).get("optional") else "")
+                      + ("(stacked)" if "stack" in h else ""))
         ctx.count("S.slips", len(sc.get("slips", [])))
         ctx.count("S.faults", len(sc.get("faults", [])))
         ctx.count("S.restarts", sum(1 for e in sc["timeline"] if e[1] in ("stop", "kill")))
